@@ -194,7 +194,7 @@ pub fn pool(z: usize) -> &'static [&'static str] {
         0 => &["aabx", "aaby", "aax", "aay", "bcz", "aabz", "aaaa", "bcbcx", "ay", "", "abbbby"],
         1 => &["1+2*3", "-1^2^3!", "1 + ", "2 * (3", "4!!+5", "1+2+3+4", "^", "7"],
         2 => &["abc 12 x9", "12.5 foo", "abc !", "a1 b2 c3 d4", "", "9.", "zzz"],
-        3 => &["1 2 3;", "1 300 2;", "1 x 2;", "999 999;", "1 2", ";", "12 @@ 7;"],
+        3 => &["1 2 3;", "1 300 2;", "1 x 2;", "999 999;", "1 2", ";", "12 @@ 7;", "1 300 2", "999 x"],
         4 => &["[a, bc, d]", "[a, (b, c]", "[a,, b]", " [ x1 , y2 , ] ", "[", "[a b]", "[]", "[[a], b]"],
         5 => &["1+2*3", "(1+2)*3", "((((4))))", "1+(2*", "2*/3", "1 + 2 - 3 * 4 / 5", "()", "((1)"],
         _ => &["(a b c)", "(a (b c) d)", "(a [b) c)", "((", "a", "(a (b [c] d) e)", "()", "(a))"],
